@@ -79,6 +79,8 @@ def meta(tier):
 
 def input_pool(ns):
     pl = list(inputs.x0(ns))
+    pl.append(("prim:huge-int", lambda: 10**400))
+    pl.append(("prim:huge-float-text", lambda: "1e400"))
     for m in pool():
         for vi, v in enumerate(m.values(ns)[:NW]):
             w = m.wire(ns, v)
@@ -96,7 +98,18 @@ def value_pool(ns):
     pl.append(("val:object", lambda: object()))
     pl.append(("val:Unrelated", lambda: ns["Unrelated"]()))
     pl.append(("val:time", lambda: T.TIMES[0]))
+    # values on which a member routine fails with an unusual error class (OverflowError, RecursionError ...)
+    pl.append(("val:inf", lambda: float("inf")))
+    pl.append(("val:nan", lambda: float("nan")))
+    pl.append(("val:huge-int", lambda: 10**400))
     return pl
+
+
+def _deep(n):
+    x = []
+    for _ in range(n):
+        x = [x]
+    return x
 
 
 def reference(uterm, routines, x, idx):
